@@ -179,7 +179,7 @@ theorem runLoop_eq (look : List LookStep) (o : Opts) (op : Op) (guards : List Gu
         stepD o.multiError ((ps.filter (fun p => !skip p && !p.ok)).map Part.param) me := by
   intro ps
   induction ps with
-  | nil => intro me; cases hm : o.multiError <;> simp [runLoop, stepD, hm]
+  | nil => intro me; cases hm : o.multiError <;> simp [runLoop, stepD]
   | cons p ps ih =>
     intro me
     rw [runLoop, hg]
@@ -194,7 +194,7 @@ theorem runLoop_eq (look : List LookStep) (o : Opts) (op : Op) (guards : List Gu
           simp only [Bool.false_eq_true, if_false, handle, hm, if_true, ih, stepD, List.filter_cons, hs, hk,
             Bool.not_false, Bool.and_self, List.map_cons, List.append_assoc, List.singleton_append]
         | false =>
-          simp [handle, hm, stepD, List.filter_cons, hs, hk]
+          simp [handle, stepD, hs, hk]
 
 /-! ### `ValidateRequest` -/
 
@@ -270,14 +270,14 @@ theorem run_eq_direct (o : Opts) (op : Op) (env : Env) :
   | true =>
     dsimp only
     rw [tail_eq o op env [] _ (fun _ => rfl)]
-    simp [paramParts, bodyParts, List.append_assoc]
+    simp [paramParts, bodyParts]
   | false =>
     dsimp only
     cases hm : o.multiError with
     | true =>
       simp only [handle, if_true]
       rw [tail_eq o op env _ _ (fun h => by simp [hm] at h)]
-      simp [paramParts, bodyParts, hm, List.append_assoc]
+      simp [paramParts, bodyParts, hm]
     | false =>
       simp [handle, finish]
 
